@@ -771,14 +771,20 @@ impl<'a> Model<'a> {
                 if column_end <= max {
                     // Case D
                     // We displace the end
+                    // (nothing is left when the whole range is deleted)
                     let mut new_column = col.clone();
                     new_column.max = max - column_count;
-                    new_columns.push(new_column);
+                    if new_column.min <= new_column.max {
+                        new_columns.push(new_column);
+                    }
                 } else {
                     // Case E
+                    // (nothing is left when the deletion starts at the start of the range)
                     let mut new_column = col.clone();
                     new_column.max = column_start - 1;
-                    new_columns.push(new_column);
+                    if new_column.min <= new_column.max {
+                        new_columns.push(new_column);
+                    }
                 }
             } else {
                 // Case F
